@@ -389,8 +389,9 @@ class Indentation(afmformats.AFMForceDistance):
                               names=names,
                               lda=lda)
             rt = rater.rate(datasets=self)[0]
-            # (remember a copy of `names`; the user might edit the list)
-            self._rating = (curhash, regressor, training_set,
+            # (remember copies of `names` and of an in-memory training
+            # set; the user might edit the list or the arrays in-place)
+            self._rating = (curhash, regressor, copy.deepcopy(training_set),
                             copy.copy(names), lda, rt)
         else:
             # Use cached rating
